@@ -31,7 +31,9 @@ ExpectedHT ==
   [ std_kbd |-> "STD_KBD", std_kbd2 |-> "STD_KBD", nkro |-> "NKRO_KBD", mouse |-> "MOUSE", system |-> "SYSTEM",
     multimedia |-> "MULTIMEDIA", joy_abs |-> "JOYSTICK", joy_ff |-> "JOYSTICK", other |-> "UNKNOWN" ]
 
-Locations == <<"usb-0000:00:14.0-1", "usb-0000:00:14.0-2", "">>
+\* what the kernel reports for two interfaces of one USB port (they differ after the last '/': different locations), and
+\* the empty location
+Locations == <<"usb-0000:00:14.0-1/input0", "usb-0000:00:14.0-1/input1", "">>
 
 ASSUME PrintT(<<"CAPTABLE", ToJson([caps |-> CapTable, locs |-> Locations])>>)
 
